@@ -6,7 +6,6 @@ use std::fmt::Display;
 use std::fmt::Error;
 use std::fmt::Formatter;
 use std::fs::DirEntry;
-use std::fs::File;
 use std::io::prelude::*;
 use std::str::FromStr;
 use std::time::Duration;
@@ -851,7 +850,7 @@ pub fn get_value(
             }
 
             if let Some(entry) = entry {
-                if let Ok(mut f) = File::open(entry.path()) {
+                if let Ok(mut f) = crate::util::open_regular_file(&entry.path()) {
                     let mut contents = String::new();
                     if f.read_to_string(&mut contents).is_ok() {
                         if contents.contains(&function_arg) {
